@@ -168,6 +168,85 @@ def _optional_result(ctx, h):
     return None
 
 
+def _none_test(t, name, positive):
+    """does the test t establish `name is not None` (positive) / `name is None` (not positive) when it is true?"""
+    if isinstance(t, ast.Compare) and len(t.ops) == 1 and isinstance(t.left, ast.Name) and t.left.id == name and _is_none(t.comparators[0]):
+        if isinstance(t.ops[0], (ast.IsNot, ast.NotEq)):
+            return positive
+        if isinstance(t.ops[0], (ast.Is, ast.Eq)):
+            return not positive
+    if isinstance(t, ast.BoolOp) and isinstance(t.op, ast.And):
+        return any(_none_test(v, name, positive) for v in t.values)
+    if isinstance(t, ast.UnaryOp) and isinstance(t.op, ast.Not):
+        return _none_test_false(t.operand, name, positive)
+    return False
+
+
+def _none_test_false(t, name, positive):
+    """does the test t establish `name is not None` (positive) / `name is None` when it is FALSE?"""
+    if isinstance(t, ast.Compare) and len(t.ops) == 1 and isinstance(t.left, ast.Name) and t.left.id == name and _is_none(t.comparators[0]):
+        if isinstance(t.ops[0], (ast.Is, ast.Eq)):
+            return positive
+        if isinstance(t.ops[0], (ast.IsNot, ast.NotEq)):
+            return not positive
+    if isinstance(t, ast.BoolOp) and isinstance(t.op, ast.Or):
+        return any(_none_test_false(v, name, positive) for v in t.values)
+    if isinstance(t, ast.UnaryOp) and isinstance(t.op, ast.Not):
+        return _none_test(t.operand, name, positive)
+    return False
+
+
+def _leaves(stmts):
+    return bool(stmts) and isinstance(stmts[-1], (ast.Return, ast.Raise, ast.Continue, ast.Break))
+
+
+def _known_not_none(fnode, e):
+    """the truthiness test of the name e happens where `e is not None` is already established: inside the branch of a None test,
+    behind `e is not None and ...`, or after an early exit `if e is None: return`.  Then truthiness deliberately separates the
+    empty payload from the others and the sentinel is not in play."""
+    name = e.id
+    parents = {}
+    for n in ast.walk(fnode):
+        for c in ast.iter_child_nodes(n):
+            parents[id(c)] = n
+    cur = e
+    while id(cur) in parents:
+        par = parents[id(cur)]
+        if isinstance(par, (ast.If, ast.While)) and cur is not par.test:
+            in_body = any(cur is x for x in par.body)
+            if in_body and _none_test(par.test, name, True):
+                return True
+            if not in_body and isinstance(par, ast.If) and _none_test_false(par.test, name, True):
+                return True
+        if isinstance(par, ast.IfExp) and cur is not par.test:
+            if cur is par.body and _none_test(par.test, name, True):
+                return True
+            if cur is par.orelse and _none_test_false(par.test, name, True):
+                return True
+        if isinstance(par, ast.BoolOp):
+            idx = [i for i, v in enumerate(par.values) if v is cur]
+            if idx:
+                earlier = par.values[:idx[0]]
+                if isinstance(par.op, ast.And) and any(_none_test(v, name, True) for v in earlier):
+                    return True
+                if isinstance(par.op, ast.Or) and any(_none_test_false(v, name, True) for v in earlier):
+                    return True
+        # an early exit earlier in the same block
+        for fld in ('body', 'orelse', 'finalbody'):
+            blk = getattr(par, fld, None)
+            if isinstance(blk, list) and any(cur is x for x in blk):
+                k = [i for i, x in enumerate(blk) if x is cur][0]
+                for st in blk[:k]:
+                    if isinstance(st, ast.If) and _leaves(st.body) and _none_test(st.test, name, False):
+                        return True
+                    if isinstance(st, ast.Assert) and _none_test(st.test, name, True):
+                        return True
+        if par is fnode:
+            break
+        cur = par
+    return False
+
+
 def _truth_uses(fnode):
     """(node, tested expression) for every truthiness test in the function's own body"""
     out = []
@@ -263,7 +342,7 @@ def check_sentinel_truthiness(ctx, rep, sfuncs, rule='R-TRUTH'):
             why = None
             if isinstance(e, ast.Call):
                 why = optional_call(e)
-            elif isinstance(e, ast.Name) and e.id in assigns:
+            elif isinstance(e, ast.Name) and e.id in assigns and not _known_not_none(g.node, e):
                 prev = [a for a in assigns[e.id] if (a.lineno, a.col_offset) < (e.lineno, e.col_offset)]
                 if prev:
                     last = max(prev, key=lambda a: (a.lineno, a.col_offset))
@@ -292,7 +371,7 @@ def check_sentinel_truthiness(ctx, rep, sfuncs, rule='R-TRUTH'):
             first = None
             rebound = [a for a in assigns.get(p.arg, [])]
             for host, e in uses:
-                if isinstance(e, ast.Name) and e.id == p.arg:
+                if isinstance(e, ast.Name) and e.id == p.arg and not _known_not_none(g.node, e):
                     # only uses that precede (or are) the first re-binding see the caller's value
                     if all((e.lineno, e.col_offset) <= (a.end_lineno, a.end_col_offset) for a in rebound):
                         first = (host, e) if first is None or (e.lineno, e.col_offset) < (first[1].lineno, first[1].col_offset) else first
